@@ -1,0 +1,200 @@
+//go:build verif
+// +build verif
+
+package linker
+
+// Observation hook for the /verif correspondence harness (build tag "verif" only): reports, right after
+// scanImportsAndExports, the import/export tables of every reachable JS file together with what the linker
+// derived from them (ResolvedExports, SortedAndFilteredExportAliases, ImportsToBind, namespace aliases) and the
+// log messages produced so far. Kernel "exportmatch" feeds the tables to the Lean model (Impl/ExportMatch.lean).
+
+import (
+	"sort"
+
+	"github.com/evanw/esbuild/internal/ast"
+	"github.com/evanw/esbuild/internal/graph"
+	"github.com/evanw/esbuild/internal/runtime"
+)
+
+type VerifExportsRef struct {
+	Source int
+	Inner  int
+}
+
+type VerifExportsNamedExport struct {
+	Alias string
+	Ref   VerifExportsRef
+	Loc   int // AliasLoc.Start
+}
+
+type VerifExportsNamedImport struct {
+	Ref          int // inner index (the source index is the file's)
+	Alias        string
+	AliasIsStar  bool
+	Target       int // source index of the imported file, -1 = external / not a file
+	IsExported   bool
+	Loc          int // AliasLoc.Start
+	NamespaceRef int // inner index of NamedImport.NamespaceRef, -1 = InvalidRef
+
+	// results
+	Bound            bool // ImportsToBind has an entry
+	BoundTo          VerifExportsRef
+	BoundSource      int
+	HasNsAlias       bool // the import symbol got a NamespaceAlias
+	NsAliasRef       VerifExportsRef
+	NsAlias          string
+	ProbablyTSType   bool
+	ImportItemStatus int
+}
+
+type VerifExportsData struct {
+	Source int
+	Ref    VerifExportsRef
+	Loc    int
+}
+
+type VerifExportsResolved struct {
+	Alias     string
+	Main      VerifExportsData
+	Ambiguous []VerifExportsData
+}
+
+type VerifExportsFile struct {
+	SourceIndex   int
+	Path          string
+	ExportsKind   int // js_ast.ExportsKind after steps 1-2
+	Wrap          int
+	NoExports     bool // the "file without any exports" test of advanceImportTracker (alias-independent part)
+	HasLazyExport bool
+	IsTypeScript  bool
+	IsEntryPoint  bool
+	ExportsRef    int                       // inner index
+	Exports       []VerifExportsNamedExport // sorted by alias
+	Stars         []int                     // ExportStarImportRecords in order: target source index, -1 = external
+	Imports       []VerifExportsNamedImport // sorted by ref
+	Resolved      []VerifExportsResolved    // sorted by alias
+	SortedAliases []string
+	ExtraBinds    int // entries of ImportsToBind whose key is not one of this file's named imports
+}
+
+type VerifExportsMsg struct {
+	Kind   int
+	Text   string
+	File   string
+	Line   int
+	Column int
+}
+
+type VerifExportsDump struct {
+	Files []VerifExportsFile // in the order of ReachableFiles, the runtime and non-JS files left out
+	Msgs  []VerifExportsMsg
+}
+
+var verifExportsObserver func(VerifExportsDump)
+
+// VerifSetExportsObserver installs (or with nil removes) the observer.
+func VerifSetExportsObserver(f func(VerifExportsDump)) {
+	verifShakeMutex.Lock()
+	verifExportsObserver = f
+	verifShakeMutex.Unlock()
+}
+
+func verifExportsRef(r ast.Ref) VerifExportsRef {
+	return VerifExportsRef{Source: int(r.SourceIndex), Inner: int(r.InnerIndex)}
+}
+
+func verifObserveExports(c *linkerContext) {
+	verifShakeMutex.Lock()
+	obs := verifExportsObserver
+	verifShakeMutex.Unlock()
+	if obs == nil {
+		return
+	}
+	d := VerifExportsDump{}
+	for _, sourceIndex := range c.graph.ReachableFiles {
+		if sourceIndex == runtime.SourceIndex {
+			continue
+		}
+		file := &c.graph.Files[sourceIndex]
+		repr, ok := file.InputFile.Repr.(*graph.JSRepr)
+		if !ok {
+			continue
+		}
+		f := VerifExportsFile{
+			SourceIndex:   int(sourceIndex),
+			Path:          file.InputFile.Source.PrettyPaths.Rel,
+			ExportsKind:   int(repr.AST.ExportsKind),
+			Wrap:          int(repr.Meta.Wrap),
+			NoExports:     !repr.AST.HasLazyExport && repr.AST.ExportKeyword.Len == 0 && !repr.AST.UsesExportsRef && !repr.AST.UsesModuleRef,
+			HasLazyExport: repr.AST.HasLazyExport,
+			IsTypeScript:  file.InputFile.Loader.IsTypeScript(),
+			IsEntryPoint:  file.IsEntryPoint(),
+			ExportsRef:    int(repr.AST.ExportsRef.InnerIndex),
+		}
+		for alias, name := range repr.AST.NamedExports {
+			f.Exports = append(f.Exports, VerifExportsNamedExport{Alias: alias, Ref: verifExportsRef(name.Ref), Loc: int(name.AliasLoc.Start)})
+		}
+		sort.Slice(f.Exports, func(i, j int) bool { return f.Exports[i].Alias < f.Exports[j].Alias })
+		for _, importRecordIndex := range repr.AST.ExportStarImportRecords {
+			record := &repr.AST.ImportRecords[importRecordIndex]
+			if record.SourceIndex.IsValid() {
+				f.Stars = append(f.Stars, int(record.SourceIndex.GetIndex()))
+			} else {
+				f.Stars = append(f.Stars, -1)
+			}
+		}
+		for ref, ni := range repr.AST.NamedImports {
+			im := VerifExportsNamedImport{Ref: int(ref.InnerIndex), Alias: ni.Alias, AliasIsStar: ni.AliasIsStar, Target: -1,
+				IsExported: ni.IsExported, Loc: int(ni.AliasLoc.Start), NamespaceRef: -1}
+			if ref.SourceIndex != sourceIndex {
+				im.Ref = -1 - int(ref.InnerIndex) // never happens: named imports are keyed by the file's own symbols
+			}
+			if record := &repr.AST.ImportRecords[ni.ImportRecordIndex]; record.SourceIndex.IsValid() {
+				im.Target = int(record.SourceIndex.GetIndex())
+			}
+			if ni.NamespaceRef != ast.InvalidRef {
+				im.NamespaceRef = int(ni.NamespaceRef.InnerIndex)
+			}
+			if b, ok := repr.Meta.ImportsToBind[ref]; ok {
+				im.Bound = true
+				im.BoundTo = verifExportsRef(b.Ref)
+				im.BoundSource = int(b.SourceIndex)
+			}
+			symbol := c.graph.Symbols.Get(ref)
+			if symbol.NamespaceAlias != nil {
+				im.HasNsAlias = true
+				im.NsAliasRef = verifExportsRef(symbol.NamespaceAlias.NamespaceRef)
+				im.NsAlias = symbol.NamespaceAlias.Alias
+			}
+			im.ProbablyTSType = repr.Meta.IsProbablyTypeScriptType[ref]
+			im.ImportItemStatus = int(symbol.ImportItemStatus)
+			f.Imports = append(f.Imports, im)
+		}
+		sort.Slice(f.Imports, func(i, j int) bool { return f.Imports[i].Ref < f.Imports[j].Ref })
+		for ref := range repr.Meta.ImportsToBind {
+			if _, ok := repr.AST.NamedImports[ref]; !ok {
+				f.ExtraBinds++
+			}
+		}
+		for alias, export := range repr.Meta.ResolvedExports {
+			r := VerifExportsResolved{Alias: alias, Main: VerifExportsData{Source: int(export.SourceIndex), Ref: verifExportsRef(export.Ref), Loc: int(export.NameLoc.Start)}}
+			for _, a := range export.PotentiallyAmbiguousExportStarRefs {
+				r.Ambiguous = append(r.Ambiguous, VerifExportsData{Source: int(a.SourceIndex), Ref: verifExportsRef(a.Ref), Loc: int(a.NameLoc.Start)})
+			}
+			f.Resolved = append(f.Resolved, r)
+		}
+		sort.Slice(f.Resolved, func(i, j int) bool { return f.Resolved[i].Alias < f.Resolved[j].Alias })
+		f.SortedAliases = append([]string{}, repr.Meta.SortedAndFilteredExportAliases...)
+		d.Files = append(d.Files, f)
+	}
+	for _, m := range c.log.Peek() {
+		vm := VerifExportsMsg{Kind: int(m.Kind), Text: m.Data.Text}
+		if m.Data.Location != nil {
+			vm.File = m.Data.Location.File.Rel
+			vm.Line = m.Data.Location.Line
+			vm.Column = m.Data.Location.Column
+		}
+		d.Msgs = append(d.Msgs, vm)
+	}
+	obs(d)
+}
